@@ -27,7 +27,7 @@ ASSUMPTIONS = [
     "instants within 0.1 s of a deadline (responses, connection changes) are not judged; after a reset the next deadline may count from any instant between the close and the re-establishment",
     "any delivered console-version message counts as a response, solicited or not",
 ]
-PROBES = ["c08.initialised_after_init_gave_up", "c08.second_system_in_process", "c08.full_buffer_at_tick", "c08.other_extended_traffic", "c08.blocked_dead_link", "c08.silence_from_start", "c08.silence_after_response", "c08.silence_after_reset", "c08.late_answer", "c08.blackhole", "c08.bare_manager",
+PROBES = ["c08.slow_reconnect_after_reset", "c08.initialised_after_init_gave_up", "c08.second_system_in_process", "c08.full_buffer_at_tick", "c08.other_extended_traffic", "c08.blocked_dead_link", "c08.silence_from_start", "c08.silence_after_response", "c08.silence_after_reset", "c08.late_answer", "c08.blackhole", "c08.bare_manager",
           "c08.reset_expected", "c08.second_reset_expected", "c08.all_answered", "c08.outage_over_tick"]
 
 
@@ -112,6 +112,12 @@ def generate(rng, index: int, tier: str) -> dict:
             tl.append({"at": t_init + 40.0, "op": "user.snapshot", "label": "late"})
             info["late_handshake"] = True
         sc = {"gen": gen, "mode": "api", "installation": inst, "knobs": knobs, "timeline": tl, "end": end, "info": info}
+    if not blocked and style in ("from_start", "forever") and rng.random() < 0.35:
+        # the reconnection after the first timeout reset is slow (one slow accept, or refusals): the silence on the new link is
+        # still counted from the reset
+        slow = rng.choice([[{"kind": "accept", "latency": rng.choice([40.0, 70.0])}], [{"kind": "refuse", "latency": 0.0}] * rng.choice([10, 30]) + [{"kind": "accept", "latency": 0.0}]])
+        sc["timeline"].append({"at": (t_s if bare else t_init) + 8.0, "op": "net.fates", "fates": slow})
+        sc["info"]["slow_reconnect"] = True
     if blocked:
         first = (t_s if bare else t_init + 0.1)
         t_stall = first + n_prompt * interval + interval / 2
@@ -314,10 +320,18 @@ def execute(sc: dict) -> dict:
         resets += 1
         nxt = next((x for x in links if x["up"] >= l["close"] - 1e-9 and x["id"] != l["id"]), None)
         if nxt is None:
+            if info.get("slow_reconnect") and sc["end"] - l["close"] < 80.0:
+                judged_all = False  # the (deliberately slow) reconnection is still under way when the run ends
+                break
             V.append(viol("C08.no_reconnect_after_reset", {"closed_at": l["close"]}))
             break
+        # "... and again after every earlier reset": the next window runs from the reset - from the moment the client started to
+        # close the link to the moment that close was complete (a close can be held up by unflushed bytes) - and NOT from the
+        # moment the new connection is up, however long the reconnection takes
         D_lo = l["close"] + T
-        D_hi = nxt["up"] + T + 0.05
+        D_hi = max(l["close"], l["lost"] if l["lost"] is not None else l["close"]) + T + 0.05
+        if nxt["up"] > D_hi - T + 1.0:
+            probes["c08.slow_reconnect_after_reset"] = 1
     # spurious resets: client-initiated closes not explained by a deadline
     t_shutdown = next((c["t_call"] for c in w.calls if c["op"] in ("user.shutdown", "user.close", "user.hb_stop")), None)
     if judged_all and not V:
